@@ -535,7 +535,7 @@ pub fn run_c30(ctx: &Ctx) -> i32 {
          variants; every ancestor directory of every matching path is visited. Non-trivial: the \
          tree has a combinator and at least one universe path matches. Distinct: by expression.",
     );
-    let n = ctx.tier().pick(40_000, 2_000_000);
+    let n = ctx.tier().pick(200_000, 2_000_000);
     par_cases(ctx, n, threads(), |i, cs, rng| {
         let depth = rng.range(1, 5);
         let e = gen_expr(rng, "", depth);
@@ -603,7 +603,7 @@ pub fn run_c31(ctx: &Ctx) -> i32 {
          Non-trivial: contains an operator and the universe has both matching and non-matching paths. \
          Distinct: by (text, cwd).",
     );
-    let n = ctx.tier().pick(40_000, 2_000_000);
+    let n = ctx.tier().pick(200_000, 2_000_000);
     let base = PathBuf::from("/ws");
     par_cases(ctx, n, threads(), |i, cs, rng| {
         let cwd = match rng.below(4) {
